@@ -5,6 +5,7 @@ from fractions import Fraction as F
 
 import analysis
 import common
+import reuse
 from analysis import CELLS, FIELDS, NAMES, make_case, real_analyze, run_cases, same
 from common import Check
 from props.c06 import aggs_of
@@ -88,7 +89,16 @@ def float_linearised(chk: Check, n):
                 x[0] += 1
             xs.append(x)
             ys.append(y)
+        if k % 8 == 4 and zero == "none":
+            # numerator and denominator at a level huge next to their spread (raw second moments cancel here)
+            xs = [x + 9e8 for x in xs]
+            ys = [y + 4e8 for y in ys]
         data = pa.table({"variant": [0] * nc + [1] * nt, "x": np.concatenate(xs), "y": np.concatenate(ys)})
+        route = ("pyarrow", "polars-lazy", "pandas", "polars")[(k // 4) % 4]
+        if route != "pyarrow":
+            import polars as pl
+            data = {"polars-lazy": lambda t: pl.from_arrow(t).lazy(), "pandas": lambda t: t.to_pandas(),
+                    "polars": lambda t: pl.from_arrow(t)}[route](data)
         try:
             if k % 3 == 2:
                 # SOME options explicit (among them alpha, which the analysis does not use), the confidence level from
@@ -204,6 +214,8 @@ def main():
     equivalences(chk, 24 if chk.tier == "quick" else 240)
     float_linearised(chk, 36 if chk.tier == "quick" else 360)
     analysis.narrow_ints(chk, 4 if chk.tier == "quick" else 24, "the delta-method test of the raw observations")
+    reuse.analyze_after_mutation(chk, 4 if chk.tier == "quick" else 16, "the delta-method test is not the one of the rows the frame holds")
+    reuse.aggregates_object_reuse(chk, 6 if chk.tier == "quick" else 48, "the delta-method test is not the one of the statistics handed over")
     equivalence_under_config(chk, 24 if chk.tier == "quick" else 240)
     chk.cov["rule"] = ("random rational numerator/denominator data (2..28 rows per variant, balanced and 1:many, "
                        "any correlation), all 12 option cells, random confidence levels; equivalences Mean / "
